@@ -23,6 +23,12 @@ CHECKS = {
  "C08": ("exploration", "model-based stateful property-based testing: sorted-map reference model predicts pairs, return values and admissible error kinds per step from the observed pre-state",
          "A sorted-map model written from the statement predicts, for every step of generated and bounded-exhaustive histories, the resulting pairs, the return value and the admissible error kinds; silent regions are admitted either way. Every mutator is exercised >= 200 times per quick run (health check).",
          "model is the oracle; regions where the listed properties are silent (other scheme's key name, malformed inner list bytes, CombinedKey precedence, variable-length signatures near the limit) admit either outcome", "5/C08"),
+ "C09": ("exploration", "size sweep by construction (filler solved so the model result is exactly N bytes, for every mutator / family / seq class / N in the window) + stateful random histories; oracle = reference-encoder size model",
+         "For every mutator and the builder, every built-in key family, every N in the window (quick 294..=306, thorough 280..=320) and sequence numbers whose encoding does / does not grow, a record is constructed whose update result is exactly N bytes; refusal must happen iff N > 300 (builder: all > 300, nothing <= 292). Every Ok record of all histories (incl. the variable-length-signature scheme) must encode to <= 300 bytes with size() exact. The window is covered completely where reachable; unreachable cells are counted.",
+         "result sizes computed by the reference encoder; exact refusal only claimed for 64-byte signatures, as the property says", "5/C09"),
+ "C10": ("exploration", "property-based testing with an edge-key pool (mined leading-zero coordinates) over histories and wire records; oracle = own keccak256 over independently decompressed key",
+         "Node ids of every built, updated and decoded record are compared with a hand-written keccak256 over the key decompressed by libsecp256k1 (cross-checked with k256), for every pool key (edge scalars, mined leading-zero x / y, odd/even y) and all key families; invariance under same-key updates and injectivity across keys are checked inside each history.",
+         "keccak256 hand-written and self-checked against fixed vectors and the sha3 crate; decompression by libsecp256k1/k256", "5/C10"),
  "C16": ("exploration", "property-based testing: exhaustive slice lengths + seeded random strings vs a reference hex parser, proptest shrinking",
          "Every slice length 0..=64 and patterned 32-byte values are enumerated; tens of thousands of mutated hex strings and JSON texts are compared with a reference parser written from the statement. Complete for the length domain, sampled for strings.",
          "serde_json as JSON implementation; strings sampled, not exhaustive", "5/C16"),
